@@ -304,7 +304,7 @@ def run(a, rep):
         if pgen.pid not in bad:
             rep.outcome("compiles")
     # one full crate (Cargo.toml emitted by the generator) checked with the runtime crates patched in
-    if not a.replay_case:
+    if not a.replay_case or str(a.replay_case.get("program", "")).startswith("fullcrate"):
         full_crate(rep, root, by_id)
     rep.sample("names", {"program": "field / union variant named `await`", "positions": ["object field", "union variant", "endpoint", "path/query argument", "error argument", "package segment", "type", "enum value"]})
     rep.sample("shapes", {"program": sp[0].label[:300] if sp else ""})
@@ -317,26 +317,63 @@ def run(a, rep):
     rep.assumptions.append("rustc (cargo check) is the oracle for 'compiles'")
 
 
+def full_crate_programs():
+    """one generated *crate* (Cargo.toml written by the generator) per non-empty subset of
+    {types, errors, services}: the dependency list must cover what the emitted code uses"""
+    RID, DT, UUIDT, SL, BIN, ANY, BT = (space.prim(x) for x in ("RID", "DATETIME", "UUID", "SAFELONG", "BINARY", "ANY", "BEARERTOKEN"))
+    types = [space.obj("Thing", [space.field("rid", RID), space.field("at", space.opt(DT)), space.field("ratio", D), space.field("blob", BIN), space.field("more", space.lst(R("Thing")))], PKG),
+             space.union("Either", [space.field("thing", R("Thing")), space.field("n", SL)], PKG), space.enum("Kind", ["ONE", "TWO"], PKG), space.alias("Id", UUIDT, PKG)]
+    out = []
+    for mask in range(1, 8):
+        has_t, has_e, has_s = bool(mask & 1), bool(mask & 2), bool(mask & 4)
+        ref = (lambda prim, n: R(n)) if has_t else (lambda prim, n: prim)
+        errors = [space.error("Broken", "Verif", "INVALID_ARGUMENT", [space.field("id", ref(UUIDT, "Id")), space.field("count", I)], [space.field("why", S), space.field("where", ref(RID, "Thing")), space.field("whens", space.lst(DT))])] if has_e else []
+        eps = [space.endpoint("get", "GET", "/t/{rid}", [space.arg("rid", RID, "path"), space.arg("since", space.opt(DT), "query", "since"), space.arg("ids", space.lst(UUIDT), "query", "id"), space.arg("big", SL, "header", "X-Big")], returns=ref(ANY, "Thing"), auth="header"),
+               space.endpoint("put", "PUT", "/t", [space.arg("body", ref(BIN, "Either"), "body")], returns=space.opt(BIN), auth="SESSION"),
+               space.endpoint("tok", "POST", "/tok", [space.arg("t", BT, "header", "X-Tok"), space.arg("body", BIN, "body")], returns=space.st(RID)),
+               space.endpoint("plain", "GET", "/p", [], returns=S)] if has_s else []
+        name = "".join(w for w, h in (("types", has_t), ("errors", has_e), ("services", has_s)) if h)
+        out.append((name, space.ir(types if has_t else [], [space.service("Svc", eps, PKG)] if has_s else [], errors)))
+    # services only, without any conjure-object type in a signature
+    out.append(("servicesplain", space.ir([], [space.service("Plain", [space.endpoint("plain", "GET", "/p/{a}", [space.arg("a", S, "path")], returns=I)], PKG)], [])))
+    return out
+
+
 def full_crate(rep, root, by_id):
-    ir = recursion_program().ir
-    out = os.path.join(root, "fullcrate")
-    ok, err = H.generate(ir, out, crate=("verif-full-crate", "1.2.3"))
-    rep.states += 1
-    rep.evaluations += 1
-    if not ok:
-        rep.violation("C03|generation-failed|full-crate", "crate generation fails: %s" % err[-300:], {"program": "fullcrate"})
-        return
-    cfg = []
-    for c in ("conjure-object", "conjure-error", "conjure-http", "conjure-serde", "conjure-macros"):
-        cfg += ["--config", 'patch.crates-io.%s.path="/repo/%s"' % (c, c)]
-    if not os.path.exists(os.path.join(out, "Cargo.lock")):
-        shutil.copy(os.path.join(H.ROOT, "engines", "Cargo.lock"), os.path.join(out, "Cargo.lock"))
-    p = H.cargo(out, "check", cfg, json_messages=True)
-    errs = H.compile_errors(p.stdout)
-    if p.returncode != 0:
-        if errs:
-            rep.violation("C03|does-not-compile|full-crate", "the generated crate does not compile: %s" % errs[0][2][:300], {"program": "fullcrate"})
+    ws = os.path.join(root, "fullws")
+    members = []
+    jobs = []
+    progs = full_crate_programs()
+    for name, ir in progs:
+        jobs.append((name, ir, os.path.join(ws, name), {"crate": ("verif-full-%s" % name, "1.2.3")}))
+    res = H.generate_many(jobs)
+    for name, ir in progs:
+        rep.states += 1
+        rep.evaluations += 1
+        ok, err = res[name]
+        if not ok:
+            rep.violation("C03|generation-failed|full-crate:%s" % name, "crate generation fails for a definition with %s: %s" % (name, err[-300:]), {"program": "fullcrate:" + name})
         else:
-            rep.cap("cargo check of the generated full crate failed without compiler errors (offline resolution?): %s" % p.stderr[-500:])
-    else:
-        rep.outcome("full-crate-compiles")
+            members.append(name)
+    patches = "".join('%s = { path = "/repo/%s" }\n' % (c, c) for c in ("conjure-object", "conjure-error", "conjure-http", "conjure-serde", "conjure-macros"))
+    H.sync_file(os.path.join(ws, "Cargo.toml"), "[workspace]\nresolver = \"2\"\nmembers = [%s]\n\n[patch.crates-io]\n%s" % (", ".join(json.dumps(m) for m in members), patches))
+    if not os.path.exists(os.path.join(ws, "Cargo.lock")):
+        shutil.copy(os.path.join(H.ROOT, "engines", "Cargo.lock"), os.path.join(ws, "Cargo.lock"))
+    p = H.cargo(ws, "check", ["--workspace", "--keep-going"], json_messages=True)
+    errs = H.compile_errors(p.stdout)
+    if p.returncode != 0 and not errs:
+        rep.cap("cargo check of the generated full crates failed without compiler errors (offline resolution?): %s" % p.stderr[-500:])
+        return
+    bad = {}
+    for e in errs:
+        f = e[0] or ""
+        for m in members:
+            if "/fullws/%s/" % m in f or f.startswith(m + "/"):
+                bad.setdefault(m, e)
+    if errs and not bad:
+        rep.cap("compiler errors in the full-crate workspace could not be attributed: %s" % (errs[0],))
+    for m in members:
+        if m in bad:
+            rep.violation("C03|does-not-compile|full-crate:%s" % m, "the generated crate for a definition with %s does not compile against its own Cargo.toml: %s" % (m, bad[m][2][:300]), {"program": "fullcrate:" + m})
+        else:
+            rep.outcome("full-crate-compiles")
